@@ -16,7 +16,7 @@ def _exc_summary(e):
         "type": type(e).__name__,
         "mro": [c.__name__ for c in type(e).__mro__],
         "args": _safe(e.args),
-        "str": str(e)[:400],
+        "str": str(e)[:900],
         "cause_type": type(cause).__name__ if cause is not None else None,
         "cause_str": (str(cause)[:1500] if cause is not None else None),
     }
@@ -57,6 +57,7 @@ class Ctx:
         self.pending_submit = set()
         self.death_snapshots = []
         self.ex_taken = 0
+        self.gate_open_obs = []
 
 
 def _mk_executor(ctx, cfgx):
@@ -185,7 +186,8 @@ def _user_thread(ctx, i, ops):
             if ctx.ex_taken == len(ctx.case["program"]):
                 ctx.ex = None
         for k, op in enumerate(ops):
-            rec = {"thread": i, "k": k, "op": op, "start": w.steps, "outcome": None}
+            rec = {"thread": i, "k": k, "op": op, "start": w.steps, "outcome": None,
+                   "after_shutdown": any(o[0] == "shutdown" for o in ops[:k])}
             ctx.ops.append(rec)
             try:
                 rec["outcome"] = ["ok", _do(op)]
@@ -288,8 +290,28 @@ def _user_thread(ctx, i, ops):
 
             f.add_done_callback(cb)
             return None
+        if name == "probe":
+            # late submit(s) on the executor this thread holds: outcome recorded for the oracles
+            ex = th["ex"]
+            if ex is None:
+                return "skipped"
+            out = []
+            toks = []
+            for j in range(op[1]):
+                tok = 9000 + 10 * i + j
+                _submit(ctx, th, {"kind": "echo", "token": tok, "probe": True})
+                toks.append(tok)
+            for tok in toks:
+                out.append(_val_summary(ctx.futs[tok].result()))
+            return out
+        if name == "hold":
+            # take the executor reference now (reusable: the current singleton), without submitting
+            ensure_ex()
+            return None
         if name == "open_gate":
             w.sched_point()
+            ctx.gate_open_obs.append({"step": w.steps, "bodies": len(w.running_bodies),
+                                      "alive": len([q for q in w.procs.values() if q.alive and q is not w.root])})
             w.gates[op[1]] = True
             w.version += 1
             return None
@@ -334,6 +356,7 @@ def run_case(case, verbose=False, hooks=None):
     w.running_bodies = {}
     w.max_concurrency = 0
     w.concurrency_samples = []
+    w.max_alive_workers = 0
     w.cpu_count = cfg.get("cpu_count", 2)
     mem = cfg.get("mem")
 
@@ -413,7 +436,7 @@ def _history(w, ctx, verdict, wlist):
             r["broken"] = type(o._flags.broken).__name__ if o._flags.broken else None
             r["shutdown_flag"] = bool(o._flags.shutdown)
             r["max_workers_final"] = o._max_workers
-    H.procs = [{"pid": p.pid, "idx": p.spawn_index, "alive": p.alive, "exitcode": p.exitcode, "joined": p.joined,
+    H.procs = [{"pid": p.pid, "idx": p.spawn_index, "spawn_step": getattr(p, "spawn_step", 0), "alive": p.alive, "exitcode": p.exitcode, "joined": p.joined,
                 "death": ({k: v for k, v in p.death.items()} if p.death else None), "marker": p.marker}
                for p in w.procs.values() if p is not w.root]
     H.tasks = [{"name": t.name, "pid": t.proc.pid, "state": t.state, "what": t.what, "daemon": t.daemon,
@@ -427,12 +450,14 @@ def _history(w, ctx, verdict, wlist):
     H.warnings = [str(x.message)[:120] for x in wlist]
     H.events = w.events
     H.death_snapshots = ctx.death_snapshots
+    H.gate_open_obs = ctx.gate_open_obs
     H.timers_fired = w.timers_fired
     H.preemptions = w.preemptions
     H.excluded = dict(w.excluded)
     if ctx.case.get("_excluded_program"):
         H.excluded["program:no_release_with_pending_when_respawn_possible"] = ctx.case["_excluded_program"]
     H.max_concurrency = w.max_concurrency
+    H.max_alive_workers = w.max_alive_workers
     H.concurrency_samples = w.concurrency_samples
     H.hist = dict(w.hist)
     H.sems_left = sorted(w.sems)
